@@ -450,6 +450,31 @@ func ruleForkRegistry(c *Ctx) {
 	found = 0
 	ast.Inspect(fd.Body, func(n ast.Node) bool {
 		cc, ok := n.(*ast.CaseClause)
+		if !ok {
+			// the same registry written as a table: rows {digest of the fork, allocator}, searched by a loop
+			if row, isRow := n.(*ast.CompositeLit); isRow && len(row.Elts) == 2 {
+				val := func(e ast.Expr) ast.Expr {
+					if kv, ok := e.(*ast.KeyValueExpr); ok {
+						return kv.Value
+					}
+					return e
+				}
+				if forkOfItem(pk.TypesInfo, val(row.Elts[0])) != "" {
+					cc, ok = &ast.CaseClause{Case: row.Pos(), List: []ast.Expr{val(row.Elts[0])}, Colon: row.Pos(), Body: []ast.Stmt{&ast.ExprStmt{X: val(row.Elts[1])}}}, true
+				}
+			}
+			// … or as a run of `if d.Fork == digest { return allocator }` (which is also what a loop over such a table
+			// is read as after load-time unrolling)
+			if ifs, isIf := n.(*ast.IfStmt); isIf && ifs.Else == nil {
+				if be, isBe := ast.Unparen(ifs.Cond).(*ast.BinaryExpr); isBe && be.Op == token.EQL {
+					for _, side := range []ast.Expr{be.X, be.Y} {
+						if forkOfItem(pk.TypesInfo, side) != "" && !ok {
+							cc, ok = &ast.CaseClause{Case: ifs.Pos(), List: []ast.Expr{side}, Colon: ifs.Pos(), Body: ifs.Body.List}, true
+						}
+					}
+				}
+			}
+		}
 		if !ok || len(cc.List) != 1 {
 			return true
 		}
@@ -724,6 +749,103 @@ func ruleForkRegistry(c *Ctx) {
 			c.ok(key, ifs.Pos(), "at %s_FORK_EPOCH via %s.%s", next, upFn.Pkg().Name(), upFn.Name())
 		}
 		lastIdx = preIdx
+	}
+	// the same chain written as a type switch over the state: one case per pre-fork state type, each triggered at the
+	// successor's fork epoch, calling the successor's upgrade and storing the result. A switch runs ONE case per
+	// evaluation: the chain only cascades (two forks scheduled for one epoch) when the switch stands in a loop that
+	// comes round again after an upgrade
+	if found == 0 {
+		var ts *ast.TypeSwitchStmt
+		inLoop := false
+		parentsU := parentMap(fd.Body)
+		ast.Inspect(fd.Body, func(n ast.Node) bool {
+			if x, ok := n.(*ast.TypeSwitchStmt); ok && ts == nil {
+				ts = x
+				for p := parentsU[n]; p != nil; p = parentsU[p] {
+					if f, ok := p.(*ast.ForStmt); ok && f.Cond == nil {
+						inLoop = true
+					}
+				}
+			}
+			return true
+		})
+		if ts != nil {
+			leaves := 0
+			for _, cl := range ts.Body.List {
+				cc, ok := cl.(*ast.CaseClause)
+				if !ok || len(cc.List) != 1 {
+					continue
+				}
+				pre := namedOf(pk.TypesInfo.TypeOf(cc.List[0]))
+				if pre == nil || pre.Obj().Name() != "BeaconStateView" {
+					continue
+				}
+				prePkg := pre.Obj().Pkg().Name()
+				preIdx := -1
+				for i, f := range forks {
+					if forkPkg(f) == prePkg {
+						preIdx = i
+					}
+				}
+				key := "UpgradeMaybe.from-" + prePkg
+				if preIdx < 0 || preIdx+1 >= len(forks) {
+					continue
+				}
+				next := forks[preIdx+1]
+				var epochFork string
+				var upFn *types.Func
+				stored, leavesAfter := false, false
+				body := &ast.BlockStmt{List: cc.Body}
+				ast.Inspect(body, func(m ast.Node) bool {
+					switch y := m.(type) {
+					case *ast.SelectorExpr:
+						if strings.HasSuffix(y.Sel.Name, "_FORK_EPOCH") {
+							epochFork = strings.TrimSuffix(y.Sel.Name, "_FORK_EPOCH")
+						}
+					case *ast.CallExpr:
+						if f := calleeFunc(pk.TypesInfo, y); f != nil && strings.HasPrefix(f.Name(), "UpgradeTo") {
+							upFn = f
+						}
+					case *ast.AssignStmt:
+						if len(y.Lhs) == 1 {
+							if sel, ok := y.Lhs[0].(*ast.SelectorExpr); ok && sel.Sel.Name == "BeaconState" {
+								stored = true
+							}
+						}
+					}
+					return true
+				})
+				// the case must fall out of the switch after storing (no return / break as its last statement)
+				if n := len(cc.Body); n > 0 {
+					switch last := cc.Body[n-1].(type) {
+					case *ast.ReturnStmt:
+						leavesAfter = true
+					case *ast.BranchStmt:
+						leavesAfter = last.Tok == token.BREAK && last.Label != nil
+					}
+				}
+				if upFn == nil {
+					continue
+				}
+				found++
+				switch {
+				case epochFork != next:
+					c.bad(key, cc.Pos(), "upgrade from %s is triggered at %s_FORK_EPOCH, want %s_FORK_EPOCH", prePkg, epochFork, next)
+				case upFn.Pkg().Name() != forkPkg(next) || upFn.Name() != "UpgradeTo"+camel(next):
+					c.bad(key, cc.Pos(), "upgrade from %s calls %s.%s, want %s.UpgradeTo%s", prePkg, upFn.Pkg().Name(), upFn.Name(), forkPkg(next), camel(next))
+				case !stored:
+					c.bad(key, cc.Pos(), "upgraded state is not stored back into s.BeaconState")
+				default:
+					c.ok(key, cc.Pos(), "at %s_FORK_EPOCH via %s.%s (a case of the type switch)", next, upFn.Pkg().Name(), upFn.Name())
+				}
+				if leavesAfter {
+					leaves++
+				}
+			}
+			if found > 0 && (!inLoop || leaves > 0) {
+				c.bad("UpgradeMaybe.independent", ts.Pos(), "the upgrade steps are the cases of one type switch that is evaluated once per call: when two forks activate at the same slot only the first upgrade runs and, the trigger being slot equality, the second is never retried (the switch must stand in a loop that comes round again after an upgrade)")
+			}
+		}
 	}
 	// an upgrade chained as `else if` onto another is skipped whenever the earlier one fires, although several forks may
 	// share one activation epoch
